@@ -39,7 +39,7 @@ ASSUMPTIONS = [
     "audit events cover open/os.mkdir/os.rename/os.remove/os.rmdir/shutil.*/tempfile.mkstemp",
 ]
 MIN_NONTRIVIAL = 1000
-REQUIRED_COUNTERS = ["direct_lookups", "returned_inside", "rejected", "tag_renders", "audit_events_seen", "module_files_written"]
+REQUIRED_COUNTERS = ["direct_lookups", "absolute_outside_path_uris", "returned_inside", "rejected", "tag_renders", "audit_events_seen", "module_files_written"]
 SHARDED_GEN = True
 
 SEGS = ["file.html", "sub", "..", ".", "", "..file.html", "file.html..", "..\\x", "rootx", "other"]
@@ -285,6 +285,16 @@ def enum_uris(tier, what):
                             yield lead + body
 
 
+def absolute_uris():
+    """URIs that spell the ABSOLUTE path of an existing outside file after every short mixture of leading slashes and
+    backslashes ({ABS} is replaced in the worker by that path without its leading slash, {ABSB} by the same with
+    backslashes, {ABSM} with alternating separators)"""
+    leads = [""] + ["".join(p) for k in range(1, 5) for p in itertools.product("/\\", repeat=k)] + ["./", ".\\", "../", "/./", "\\.\\", "/../", "file:", "file:///"]
+    for lead in leads:
+        for body in ("{ABS}", "{ABSB}", "{ABSM}"):
+            yield lead + body
+
+
 def configs():
     out = []
     for i, (sp, two, md) in enumerate(itertools.product(ROOT_SPELLINGS, (False, True), (False, True))):
@@ -300,7 +310,7 @@ def gen_cases(tier, seed, shard, nshards):
         batch = []
         bi = 0
         size = 4000 if what == "direct" else 150
-        for uri in enum_uris(tier, what):
+        for uri in itertools.chain(absolute_uris(), enum_uris(tier, what)):
             if not uri or zlib.crc32(uri.encode("utf-8", "surrogatepass")) % nshards != shard or uri in seen:
                 continue
             seen.add(uri)
@@ -326,7 +336,12 @@ def run_case(case):
     first = (case["kind"], case["uris"][0]) not in _seen_first_cfg
     _seen_first_cfg.add((case["kind"], case["uris"][0]))
     n = 0
+    ab = os.path.join(_st["base"], "outside.html").lstrip("/")
+    absm = "".join(c if c != "/" else "/\\"[i % 2] for i, c in enumerate(ab))
     for uri in case["uris"]:
+        if "{ABS" in uri:
+            uri = uri.replace("{ABSB}", ab.replace("/", "\\")).replace("{ABSM}", absm).replace("{ABS}", ab)
+            res.count("absolute_outside_path_uris")
         if case["kind"] == "direct":
             direct(look, uri, res, cfgname)
             cls = expect_class(uri)
